@@ -29,6 +29,9 @@ def oracle(case, rec):
         for k in ("load_str", "load_path", "tuple", "shuffled_dups", "type_objects"):
             if k in e and e[k] != base:
                 out.append(("entry-differs:" + k, f"loads(data, trusted=T) gives {base} but variant {k} gives {e[k]}"))
+        if e.get("inplace_edit_same_object") != e.get("inplace_edit_fresh_object"):
+            out.append(("trusted-list-object-cached", f"after the caller revoked every name IN PLACE in the list object it passed before, loads gives "
+                                                     f"{e.get('inplace_edit_same_object')}; with a fresh list of the same names it gives {e.get('inplace_edit_fresh_object')}"))
         if "superset" in e and base.startswith("returned") and e["superset"] != base:
             out.append(("superset-changes-result", f"enlarging trusted changed the loaded result: {base} vs {e['superset']}"))
         for k in ("true_loads", "true_load"):
